@@ -150,7 +150,7 @@ def case_strategy(draw, tier, with_variant=False):
     nres = draw(st.integers(1, min(4, n)))
     sizes = draw(gen.residue_partition(n, nres)) if nres > 1 else [n]
     atoms = []
-    rid0 = draw(st.integers(1, 500))
+    rid0 = draw(st.one_of(st.integers(1, 500), st.sampled_from([0, 99998, 99999, 100000, 199999, 1234567, 2 ** 31 - 5])))
     k = 0
     for r, sz in enumerate(sizes):
         rn = draw(st.sampled_from(gen.RESNAMES))
